@@ -462,7 +462,190 @@ def _partition(c):
     return test_idx
 
 
+# ---- LARGE collections: make_train_sets walks the row range of a collection in windows of 5,000,000 rows (a local
+# constant of the function, not patchable), so only a collection with more rows than that exercises the window seams.
+WINDOW = 5_000_000
+
+
+def _large_partition(c):
+    """A partition of range(n) of every file into `folds` non-empty index arrays, never in ascending order (shuffled as
+    mokapot's fold arrays are, or -- cheaper for the code under test -- rolled / descending). Layouts: 'mod' (row r of file j lies in fold (r + shift + j) % folds, so neighbouring
+    rows -- in particular the rows around every multiple of 5,000,000 -- lie in different folds), 'random'
+    (independent uniform fold per row, the five rows around every multiple of 5,000,000 as in 'mod'), 'blocks'
+    (contiguous row blocks, one block boundary 0 or 1 rows after the last multiple of 5,000,000 below n)."""
+    rng = np.random.default_rng(c["part_seed"])
+    folds, shift, layout = c["folds"], c["shift"], c["layout"]
+    out = []
+    for j, n in enumerate(c["sizes"]):
+        rows = np.arange(n, dtype=np.int64)
+        mod = (rows + shift + j) % folds
+        if layout == "mod":
+            fold_of = mod
+        elif layout == "random":
+            fold_of = rng.integers(0, folds, n)
+            fold_of[:folds] = np.arange(folds)          # no empty fold
+            for seam in range(WINDOW, n + 3, WINDOW):
+                near = np.arange(max(folds, seam - 2), min(n, seam + 3))
+                fold_of[near] = mod[near]
+        elif layout == "blocks":
+            main = min(WINDOW * max(1, (n - 1) // WINDOW) + shift % 2, n - 1)
+            cuts = np.sort(np.append(rng.choice(np.arange(1, main), folds - 2, replace=False), main))
+            fold_of = (np.searchsorted(cuts, rows, side="right") + shift) % folds
+        else:
+            raise ValueError(layout)
+        arrays = []
+        for f in range(folds):
+            a = np.flatnonzero(fold_of == f)
+            if c["order"] == "shuffled":
+                a = rng.permutation(a)
+            elif c["order"] == "rolled":                # ascending, but starting somewhere in the middle
+                a = np.roll(a, int(rng.integers(0, len(a))))
+            elif c["order"] == "descending":
+                a = a[::-1].copy()
+            else:
+                raise ValueError(c["order"])
+            arrays.append(a)
+        out.append(arrays)
+    return out
+
+
+def run_large_train_sets_case(c):
+    """Vectorised oracle (boolean masks over the rows of every file); the case ids carry the prefix 'large-'."""
+    sizes, folds, cap = c["sizes"], c["folds"], c["cap"]
+    test_idx = _large_partition(c)
+    bad = []
+    try:
+        n_sets = 0
+        for f, tr in enumerate(BREW.make_train_sets(test_idx, cap, list(sizes), np.random.default_rng(c["rng"]))):
+            n_sets += 1
+            if f >= folds:
+                continue
+            if len(tr) != len(sizes):
+                return [("large-train-sets-files", "fold %d: %d index lists for %d files" % (f, len(tr), len(sizes)))]
+            total = 0
+            for j, n in enumerate(sizes):
+                idx = np.asarray(tr[j], dtype=np.int64).ravel()
+                total += len(idx)
+                if len(idx) and (idx.min() < 0 or idx.max() >= n):
+                    bad.append(("large-train-sets-index-out-of-range", "fold %d file %d: a training index lies outside "
+                                "range(%d)" % (f, j, n)))
+                    continue
+                held = np.zeros(n, dtype=bool)          # the held-out rows of this fold, from the INPUT of the call
+                held[test_idx[j][f]] = True
+                times = np.bincount(idx, minlength=n)
+                if times.max(initial=0) > 1:
+                    bad.append(("large-train-sets-duplicates", "fold %d file %d: training index %d occurs %d times"
+                                % (f, j, int(times.argmax()), int(times.max()))))
+                leaked = np.flatnonzero(held & (times > 0))
+                if len(leaked):
+                    seam = bool(np.all(leaked % WINDOW == 0))
+                    bad.append(("large-train-sets-use-test-fold-window-seam-row" if seam else "large-train-sets-use-test-fold",
+                                "fold %d file %d (%d rows): %d held-out row(s) of this fold are among its training rows: %s"
+                                % (f, j, n, len(leaked), leaked[:5].tolist())))
+                if cap is None:
+                    missing = np.flatnonzero(~held & (times == 0))
+                    if len(missing):
+                        bad.append(("large-train-sets-incomplete", "fold %d file %d (%d rows): %d rows of the other folds "
+                                    "are missing from the training rows: %s" % (f, j, n, len(missing), missing[:5].tolist())))
+                del idx, held, times
+            if cap is not None and total > cap:
+                bad.append(("large-train-sets-exceed-cap", "fold %d: %d training rows, cap %d" % (f, total, cap)))
+            del tr
+    except Exception as e:  # noqa
+        return [("large-train-sets-raises-" + type(e).__name__, "%s: %s" % (type(e).__name__, e))]
+    if n_sets != folds:
+        return [("large-train-sets-count", "%d training sets for %d folds" % (n_sets, folds))]
+    seen, out = set(), []
+    for cid, what in bad:                               # one entry per class, first occurrence
+        if cid not in seen:
+            seen.add(cid)
+            out.append((cid, what))
+    return out[:3]
+
+
+def _large_cap(c, kind, rng):
+    """None / 'near': a cap 1-3 rows below the smallest total training pool (nearly every pool row is drawn, so a
+    wrong pool shows) / 'small': a cap of 1,000-100,000 rows."""
+    if kind == "none":
+        return None
+    if kind == "small":
+        return int(rng.integers(1000, 100001))
+    part = _large_partition(c)
+    pool = min(sum(n - len(fl[f]) for n, fl in zip(c["sizes"], part)) for f in range(c["folds"]))
+    return int(pool - rng.integers(1, 4))
+
+
+def gen_large_train_sets_cases(tier, seed):
+    rng = np.random.default_rng(seed + 3)
+
+    def small():
+        return int(rng.integers(20, 61))
+
+    def case(sizes, folds, layout, kind, order=None):
+        order = order or str(rng.choice(["shuffled", "rolled", "descending"]))
+        c = dict(large=True, sizes=[int(n) for n in sizes], folds=int(folds), layout=layout, order=order,
+                 shift=int(rng.integers(0, 6)), cap=None, part_seed=int(rng.integers(0, 10 ** 6)),
+                 rng=int(rng.integers(0, 10 ** 6)))
+        c["cap"] = _large_cap(c, kind, rng)
+        return c
+
+    if tier == "quick":
+        # two collections without cap (2 folds); one collection, 3 folds (rows 4,999,999 / 5,000,000 / 5,000,001 in
+        # three different folds), cap just below the pool
+        return [case([WINDOW + 1, small()], 2, str(rng.choice(["mod", "random", "blocks"])), "none", "shuffled"),
+                case([WINDOW + 3], 3, "mod", "near", str(rng.choice(["rolled", "descending"])))]
+    cases = []
+    layouts, kinds = ["mod", "random", "blocks"], ["none", "near", "small"]
+    k = int(rng.integers(0, 6))
+    for n in (WINDOW - 1, WINDOW, WINDOW + 1, WINDOW + 3):
+        for layout in layouts:
+            folds = 2 + k % 2
+            kind = kinds[k % 3]
+            # a second, small collection only without cap or with a small cap ('near' with a small partner halves the
+            # share of the large collection)
+            where = k % 3 if kind != "near" else 0
+            sizes = [[n], [n, small()], [small(), n]][where]
+            cases.append(case(sizes, folds, layout, kind))
+            k += 1
+    for n in (2 * WINDOW, 2 * WINDOW + 1, 2 * WINDOW + 3):
+        cases.append(case([n], 2, layouts[k % 3], "none"))
+        cases.append(case([n], 3, layouts[(k + 1) % 3], "near"))
+        k += 1
+    cases.append(case([WINDOW + 1, WINDOW + 3], 2, "mod", "none"))
+    cases.append(case([WINDOW + 3, WINDOW + 1], 2, "random", "near"))
+    return cases
+
+
+def _large_worker(cases, conn):
+    conn.send([run_large_train_sets_case(c) for c in cases])
+    conn.close()
+
+
+def start_large_train_sets(tier, seed):
+    """Evaluates the LARGE make_train_sets cases one after the other in ONE forked background process (peak resident size about 1.1 GB in the quick tier, 1.4 GB in the thorough tier),
+    so that they overlap with the other checks; collect with finish_large_train_sets."""
+    import multiprocessing as mp
+    cases = gen_large_train_sets_cases(tier, seed)
+    recv, send = mp.Pipe(duplex=False)
+    proc = mp.get_context("fork").Process(target=_large_worker, args=(cases, send), daemon=True)
+    proc.start()
+    send.close()
+    return cases, proc, recv
+
+
+def finish_large_train_sets(started):
+    cases, proc, recv = started
+    try:
+        results = recv.recv()
+    except EOFError:
+        results = [[("large-train-sets-worker-died", "the background process ended without a result")]] * len(cases)
+    proc.join()
+    return cases, results
+
+
 def run_train_sets_case(c):
+    if c.get("large"):
+        return run_large_train_sets_case(c)
     sizes, folds, cap = c["sizes"], c["folds"], c["cap"]
     test_idx = _partition(c)
     try:
@@ -497,7 +680,9 @@ def run_train_sets_case(c):
     return bad[:3]
 
 
-def check_train_sets(tier, seed):
+def check_train_sets(tier, seed, started_large=None):
+    """started_large: the value of start_large_train_sets(tier, seed) when the LARGE cases already run in the
+    background; otherwise they are evaluated here, one after the other."""
     rng = np.random.default_rng(seed + 2)
     n_cases = 1500 if tier == "quick" else 40000
     cases = [dict(sizes=[4, 100], folds=2, cap=40, part_seed=0, rng=0)]
@@ -514,18 +699,35 @@ def check_train_sets(tier, seed):
         elif r >= 0.9:
             c["cap"] = int(rng.integers(1, sum(c["sizes"]) + 5))
         cases.append(c)
+    large = started_large[0] if started_large is not None else gen_large_train_sets_cases(tier, seed)
     ck = Check("make_train_sets", "mokapot.brew.make_train_sets",
                "random: %d cases with seed %d (+1 fixed seed): 1-3 files of 8-40 rows, partitions into 2-6 non-empty test "
                "folds (60%% near-balanced, 40%% arbitrary cut points), subset_max_train absent (30%%) / per-file share below every pool (60%%) / "
-               "arbitrary 1..total+4 (10%%)" % (n_cases, seed + 2),
+               "arbitrary 1..total+4 (10%%); plus %d LARGE direct calls (parameters drawn with seed %d) around the "
+               "function's internal row window of 5,000,000: collections of %s rows, alone / next to a 20-60 row "
+               "collection%s, 2-3 folds laid out so that the rows next to every multiple of 5,000,000 lie in different "
+               "folds (row %% folds shifted / uniform random / contiguous blocks with a boundary on or one row after "
+               "the multiple), fold arrays shuffled / ascending from a random start / descending, subset_max_train absent / 1-3 rows below the smallest training "
+               "pool%s" % (n_cases, seed + 2, len(large), seed + 3,
+                             "5,000,001 and 5,000,003" if tier == "quick" else
+                             "4,999,999 / 5,000,000 / 5,000,001 / 5,000,003 / 10,000,000 / 10,000,001 / 10,000,003",
+                             "" if tier == "quick" else " / two collections of 5,000,001 and 5,000,003 rows",
+                             "" if tier == "quick" else " / 1,000-100,000 rows"),
                "one training set per fold; per file no duplicates, subset of the complement of that fold's test "
                "indices, equal to it without cap; with cap at most cap rows in total; non-trivial = the cap forces "
-               "sub-sampling or there are several files")
+               "sub-sampling or there are several files; for the LARGE calls (same rule, checked with boolean row "
+               "masks; a cap far below the pool draws a given row rarely, so only the absent and the near-pool cap "
+               "expose single wrong pool rows) non-trivial = a collection has more than 5,000,000 rows")
     found = []
     for c in cases:
         res = run_train_sets_case(c)
         biting = c["cap"] is not None and c["cap"] < sum(c["sizes"]) * (c["folds"] - 1) // c["folds"]
         ck.case(c, nontrivial=(biting or len(c["sizes"]) > 1) and not res)
+        found += [(cid, what, c) for cid, what in res]
+    large_results = finish_large_train_sets(started_large)[1] if started_large is not None else [
+        run_train_sets_case(c) for c in large]
+    for c, res in zip(large, large_results):
+        ck.case(c, nontrivial=max(c["sizes"]) > WINDOW and not res)
         found += [(cid, what, c) for cid, what in res]
     report(ck, found)
     return ck
@@ -553,7 +755,8 @@ def REPLAY(check_name, violation):
 if __name__ == "__main__":
     a = args()
     np.random.seed(a.seed)
-    emit([check_brew(a.tier, a.seed), check_split(a.tier, a.seed), check_train_sets(a.tier, a.seed)],
+    started = start_large_train_sets(a.tier, a.seed)   # forked first: runs while the other checks are evaluated
+    emit([check_brew(a.tier, a.seed), check_split(a.tier, a.seed), check_train_sets(a.tier, a.seed, started)],
          ["fold membership of a row is read off the score (tag of the model that produced it); the training rows of a "
           "model are what its estimator's fit() received (train_fdr=1.0 keeps every target as a positive, so nothing "
           "is filtered before fit)",
